@@ -213,7 +213,16 @@ def make_primitives(ctl, thread_namer=None):
             ctl.yield_point(P("deque.contains", obj=self))
             return self._D.__contains__(self, x)
         def __len__(self):
-            if ctl.me() is not None: ctl.yield_point(P("deque.len", obj=self))
+            if ctl.me() is not None:
+                ctl.yield_point(P("deque.len", obj=self))
+                n = self._D.__len__(self)
+                # an emptiness test that FINDS the deque empty is its own kind of event ("deque.len0"): for a consumer it is the same
+                # observation as a popleft() that raises IndexError (recorded when the operation executes: the baton is held)
+                if n == 0 and ctl.trace:
+                    name, key, to = ctl.trace[-1]
+                    if isinstance(key, tuple) and len(key) > 1 and key[1] == "deque.len":
+                        ctl.trace[-1] = (name, (key[0], "deque.len0") + tuple(key[2:]), to)
+                return n
             return self._D.__len__(self)
         def __iter__(self): ctl.yield_point(P("deque.iter", obj=self)); return self._D.__iter__(self)
         def __getitem__(self, i): ctl.yield_point(P("deque.getitem", obj=self)); return self._D.__getitem__(self, i)
